@@ -109,6 +109,10 @@ type Plan struct {
 	StableMS int `json:"stable_ms,omitempty"` // liveness budget after stabilisation
 	Free     bool `json:"free,omitempty"`     // free mode (race leg)
 	Scenario string `json:"scenario,omitempty"`
+	// corruption (C11): probability per response / meta row, and budget
+	Corrupt     float64 `json:"corrupt,omitempty"`
+	CorruptMax  int     `json:"corrupt_max,omitempty"`
+	CorruptMeta float64 `json:"corrupt_meta,omitempty"`
 }
 
 func ms(n int) time.Duration { return time.Duration(n) * time.Millisecond }
